@@ -109,6 +109,7 @@ package raftlog
 // header pointing at stale bytes).
 //@   ghost pw int = -1
 //@   call .WriteSlice
+//@     requires [zeroes_start_at_the_first_cleared_slot] arg5 ==> arg2 == 32 * arg0
 //@     set pw = (ret0 == nil ? arg0 : -1)
 //@     set clr = clr || arg5
 //@     set clrFrom = (arg5 ? arg0 : clrFrom)
